@@ -235,6 +235,7 @@ func c07(c *Ctx) {
 	db, gh := c07Genesis(dir)
 	defer db.Close()
 	c07Merge(c)
+	c07Copy(c)
 	w := &c07World{}
 	newWorld := func() {
 		w.am = account.NewManager(gh, db)
